@@ -210,8 +210,9 @@ class Report:
             "states": max(1, paths + sum(s.get("states", 0) for s in self.smt_results)),
             "transitions": max(1, queries),
             "traces_validated_against_impl": self.replayed + sum(n.get("cases", 0) for n in self.native),
-            "samples": (self.samples or [{"partition": r.get("label"), "status": r.get("status"),
-                                          "paths": r.get("paths")} for r in prs[:5]]
+            "samples": (self.samples or [{"partition": r.get("label"), "status": r.get("status"), "paths": r.get("paths"),
+                                          "explored_cases": r.get("samples")} for r in (
+                                              [r for r in prs if r.get("samples")][:6] or prs[:5])]
                         or [s.get("name") for s in self.smt_results[:5]] or ["(no partitions)"])[:12],
             "exhaustive": bool(prs or self.smt_results) and not unexplored and not self.harness_errors,
             "explanation": self.meta.get("explanation", ""),
